@@ -106,13 +106,24 @@ func (w *World) end(t *Task) int64 {
 // DoHTTP sends one request straight into the engine (real router, middleware
 // and handler) on the calling task.
 func (w *World) DoHTTP(t *Task, method, path string, body []byte, inj *Injection) *OpResult {
+	return w.DoHTTPct(t, method, path, body, inj, "")
+}
+
+// DoHTTPct: the same with a Content-Type chosen by the plan ("" application/json, "-" none).
+func (w *World) DoHTTPct(t *Task, method, path string, body []byte, inj *Injection, ctype string) *OpResult {
 	rec := w.begin(t, inj)
 	var rd *bytes.Reader
 	req := httptest.NewRequest(method, path, nil)
 	if body != nil {
 		rd = bytes.NewReader(body)
 		req = httptest.NewRequest(method, path, rd)
-		req.Header.Set("Content-Type", "application/json")
+		switch ctype {
+		case "":
+			req.Header.Set("Content-Type", "application/json")
+		case "-":
+		default:
+			req.Header.Set("Content-Type", ctype)
+		}
 	}
 	rw := httptest.NewRecorder()
 	if w.guarded(t, func() { w.env.Handler().ServeHTTP(rw, req) }) {
